@@ -84,6 +84,11 @@ def run(t):
             jobs.append((f"coldstart-{i}", ["-raw", "-n", "64", "-c", "64", "-verify=false"], False))
         jobs.append(("mix", ["-n", str(n), "-c", "16", "-cache", "1", "-rate", "300", "-mix"], True))
         jobs.append(("mix-nocache", ["-n", str(n // 2), "-c", "32", "-cache", "-1", "-mix"], True))
+        # the interleaving A.Sign, (B.Recv .. B.Respond)*, A.Respond of SignServer.tla made to happen: per signature type,
+        # every 8th request is held (scheduler gate in the SignDone hook) between its signature and its audit record /
+        # response until 16 other requests of that type were signed; what A then sends must still be A's signature
+        for ty in ("pgp", "ps", "jar", "pe-coff", "apk"):
+            jobs.append((f"held-{ty}", ["-n", "64" if t == "quick" else "320", "-c", "16", "-type", ty, "-hold", "8:16"], True))
         for i in range(nseeds):
             jobs.append((f"shutdown-{i}", ["-shutdown", "-tokendelay", "30ms", "-n", "200", "-c", "16"], True))
         results = {}
@@ -116,6 +121,12 @@ def run(t):
             absorb(run, o)
             run.cov.setdefault("verified_responses", 0)
             run.cov["verified_responses"] += o["extra"].get("verified", 0)
+            if label.startswith("held-"):
+                h = run.cov.setdefault("held_requests", {"held": 0, "released_by_others": 0})
+                h["held"] += o["extra"].get("held", 0)
+                h["released_by_others"] += o["extra"].get("held_released_by_others", 0)
+                if o["extra"].get("held_released_by_others", 0) == 0 and not run.violations:
+                    raise NoVerdict(f"{label}: no held request was overtaken by others")
             if not data:
                 continue
             lines, cache = data
@@ -134,7 +145,7 @@ def run(t):
         shutil.rmtree(d, ignore_errors=True)
     run.cov["rule"] = ("race-detector build of the harness+server; cold-start bursts of 64 simultaneous first requests; mixed load (sign over "
                        "3 key names x 4 signature types x 3 digests, list_keys, keys/{k}, health) with 16-32 clients, cache expiry 1 s, "
-                       "rate limiter, rotating key ids; every client applies the returned patch to ITS body and verifies leaf certificate "
+                       "rate limiter, rotating key ids; per signature type a run in which every 8th request is held between signature and response until 16 others were signed; every client applies the returned patch to ITS body and verifies leaf certificate "
                        "and digest; daemon.Close() at a seeded moment with slow token signatures; traces validated by SignServer_Trace, "
                        "TokenCache_Trace (per cache instance) and Relic_Trace. evaluations = requests issued")
     run.assumptions += ["interleavings inside net/http and the Go runtime are not modelled; the race detector sees only the schedules that occurred",
